@@ -444,6 +444,8 @@ class FnTr:
                 return Val(f'(vneg {a.lean})', a.ty)
             if a.ty[0] == 'M':
                 return Val(f'(mneg {a.lean})', a.ty)
+            if a.ty[0] == 'D':
+                self.scalar(a)      # raises: bare floating literal in arithmetic
             raise self.err('unary minus on ' + str(a.ty))
         if k == 'bin':
             return self.binop(node[1], self.ev(node[2]), self.ev(node[3]))
